@@ -134,15 +134,15 @@ def main():
     backends = {}
     trusted = set(plan.trusted_base)
     samples = []
-    from pyvc.contracts import _prop_of
+    from pyvc.contracts import _prop_of, belongs
     for rep in proof_reports:
         # obligations labelled with another property's id are that property's business
         bp = rep.get("by_property") or {"*": [rep["obligations"], rep["discharged"]]}
-        mine = [v for k, v in bp.items() if k in ("*", pid)]
+        mine = [v for k, v in bp.items() if k == "*" or pid in k.split("/")]
         rep["obligations"] = sum(v[0] for v in mine)
         rep["discharged"] = sum(v[1] for v in mine)
-        rep["failed"] = [f for f in rep["failed"] if _prop_of(f["label"]) in (None, pid)]
-        rep["unknown"] = [u for u in rep["unknown"] if _prop_of(u) in (None, pid)]
+        rep["failed"] = [f for f in rep["failed"] if belongs(f["label"], pid)]
+        rep["unknown"] = [u for u in rep["unknown"] if belongs(u, pid)]
         n_obl += rep["obligations"]
         n_dis += rep["discharged"]
         solver_time += rep.get("solver", {}).get("z3_time", 0) + rep.get(
